@@ -441,6 +441,17 @@ impl<'a> ImplWork<'a> {
             }
         };
 
+        // two methods can not share a Script variant name ( `a_b` and `a_B` )
+        let mut variants: Vec<(Ident,Ident)> = vec![];
+        for met in self.met_cont.iter().filter(|m| !m.is_stat()){
+            let (ident,field_name) = met.get_ident_field_name();
+            if let Some((first,_)) = variants.iter().find(|(_,f)| *f == field_name){
+                let msg = error::variant_name_conflict(first,&ident,&field_name);
+                abort!(ident,msg);
+            }
+            variants.push((ident,field_name));
+        }
+
         // for ref methods set model generic bounds if generics local
         let mut mets = vec![];
         
